@@ -38,8 +38,10 @@ func Sign(ctx context.Context, r io.Reader, cert *certloader.Certificate, params
 			return nil, nil, err
 		}
 	}
-	// splice the patched header with the rest of the stream
-	params.Pages = io.LimitReader(io.MultiReader(bytes.NewReader(headerBuf), r, bytes.NewReader(make([]byte, padding))), sigStart)
+	// splice the patched header with the rest of the code and the padding; anything
+	// behind the end of the code stays behind the signature and is not hashed
+	code := io.LimitReader(r, markers.codeSize-int64(len(headerBuf)))
+	params.Pages = io.LimitReader(io.MultiReader(bytes.NewReader(headerBuf), code, bytes.NewReader(make([]byte, padding))), sigStart)
 	if markers.sigLen != 0 {
 		// read the old signature after the pages are hashed
 		params.OldSignature = io.LimitReader(r, markers.sigLen)
